@@ -26,8 +26,8 @@ Section FifoProofs.
     | _ :: rest => Forall cfresh rest /\ cfresh (wchunk q)
     end /\
     0 < maxcap q /\
-    rcount q < two64 /\
-    wcount q = (rcount q + N.of_nat (length (qabs q))) mod two64.
+    True /\
+    qsize q = Z.of_nat (length (qabs q)).
 
   Lemma new_queue_ok init mx : 0 < init -> 0 < mx -> queue_ok (new_queue init mx).
   Proof.
@@ -65,14 +65,6 @@ Section FifoProofs.
       unfold chunk_ok; cbn. repeat split; try lia.
   Qed.
 
-  Lemma inc64_lt n : inc64 n < two64.
-  Proof. unfold inc64. apply N.mod_lt. unfold two64; lia. Qed.
-
-  Lemma mod_succ_l a : (a mod two64 + 1) mod two64 = (a + 1) mod two64.
-  Proof.
-    rewrite N.add_mod_idemp_l; [reflexivity | unfold two64; lia].
-  Qed.
-
   (* ---------------- Enqueue ---------------- *)
 
   Ltac split7 := unfold queue_ok; split; [|split; [|split; [|split; [|split; [|split]]]]].
@@ -95,8 +87,7 @@ Section FifoProofs.
       + split7; cbn; auto.
         * destruct (rchunks q); auto. destruct Hs as (Hs1 & Hs2).
           split; auto. unfold cfresh in *. lia.
-        * unfold qabs in *; cbn. rewrite Hit, app_assoc, app_length; cbn.
-          unfold inc64. rewrite Hc, mod_succ_l. f_equal. lia.
+        * unfold qabs in *; cbn. rewrite Hit, app_assoc, app_length; cbn. lia.
       + unfold qabs; cbn. rewrite Hit. now rewrite app_assoc.
     - set (c := ccap (wchunk q)) in *.
       set (nc := N.min (c + c / 2) (maxcap q)).
@@ -119,21 +110,13 @@ Section FifoProofs.
                 apply Forall_app; split; auto.
           -- unfold qabs in *; cbn. rewrite map_app, concat_app; cbn.
              rewrite Hit; cbn. rewrite app_nil_r.
-             rewrite (app_length _ [x]); cbn.
-             unfold inc64. rewrite Hc, mod_succ_l. f_equal. lia.
+             rewrite (app_length _ [x]); cbn. lia.
         * unfold qabs; cbn. rewrite map_app, concat_app; cbn. rewrite Hit; cbn.
           now rewrite app_nil_r.
       + exfalso. unfold cfull, new_chunk in Hp2; cbn in Hp2. lia.
   Qed.
 
   (* ---------------- Dequeue ---------------- *)
-
-  Lemma sub_mod_step r n :
-    r < two64 ->
-    (r + N.of_nat (S n)) mod two64 = ((r + 1) mod two64 + N.of_nat n) mod two64.
-  Proof.
-    intros Hr. rewrite N.add_mod_idemp_l by (unfold two64; lia). f_equal. lia.
-  Qed.
 
   Theorem dequeue_spec q :
     queue_ok q ->
@@ -153,9 +136,9 @@ Section FifoProofs.
       destruct (chunk_pop (wchunk q)) as [[x w']|] eqn:Ep.
       + destruct Hp as (Hit & Hok' & Hcap' & Hwr' & Hrd').
         unfold with_read; cbn. split; [|split; [|auto]].
-        * split7; cbn; auto using inc64_lt.
+        * split7; cbn; auto.
           unfold qabs in *; cbn in *. rewrite Er in Hc; cbn in Hc. rewrite Hit in Hc; cbn in Hc.
-          rewrite Hc. unfold inc64. apply sub_mod_step; assumption.
+          lia.
         * unfold qabs; cbn. rewrite Er; cbn. now rewrite Hit.
       + destruct Hp as (Hit & _). split; [assumption|split; [|auto]].
         unfold qabs; rewrite Er; cbn. now rewrite Hit.
@@ -166,10 +149,10 @@ Section FifoProofs.
       destruct (chunk_pop c) as [[x c']|] eqn:Ep.
       + destruct Hp as (Hit & Hok' & Hcap' & Hwr' & Hrd').
         unfold with_read; cbn. split; [|split; [|auto]].
-        * split7; cbn; auto using inc64_lt.
+        * split7; cbn; auto.
           -- constructor; auto. unfold cfull in *. lia.
           -- unfold qabs in *; cbn in *. rewrite Er in Hc; cbn in Hc. rewrite Hit in Hc; cbn in Hc.
-             rewrite Hc. unfold inc64. apply sub_mod_step; assumption.
+             lia.
         * unfold qabs; cbn. rewrite Er; cbn. now rewrite Hit.
       + destruct Hp as (Hit & _).
         destruct rest as [|c2 rest2].
@@ -178,10 +161,10 @@ Section FifoProofs.
           destruct (chunk_pop (wchunk q)) as [[x w']|] eqn:Ep2.
           -- destruct Hp2 as (Hit2 & Hok2 & Hcap2 & Hwr2 & Hrd2).
              unfold with_read; cbn. split; [|split; [|auto]].
-             ++ split7; cbn; auto using inc64_lt.
+             ++ split7; cbn; auto.
                 unfold qabs in *; cbn in *. rewrite Er in Hc; cbn in Hc.
                 rewrite Hit, Hit2 in Hc; cbn in Hc.
-                rewrite Hc. unfold inc64. apply sub_mod_step; assumption.
+                lia.
              ++ unfold qabs; cbn. rewrite Er; cbn. now rewrite Hit, Hit2.
           -- exfalso. destruct Hp2 as (_ & Heq). unfold cfresh in Hfresh_w. lia.
         * inversion Hrest_ok as [|? ? Hc2_ok Hrest2_ok]; subst.
@@ -191,11 +174,11 @@ Section FifoProofs.
           destruct (chunk_pop c2) as [[x c2']|] eqn:Ep2.
           -- destruct Hp2 as (Hit2 & Hok2 & Hcap2 & Hwr2 & Hrd2).
              unfold with_read; cbn. split; [|split; [|auto]].
-             ++ split7; cbn; auto using inc64_lt.
+             ++ split7; cbn; auto.
                 ** constructor; auto. unfold cfull in *. lia.
                 ** unfold qabs in *; cbn in *. rewrite Er in Hc; cbn in Hc.
                    rewrite Hit, Hit2 in Hc; cbn in Hc.
-                   rewrite Hc. unfold inc64. apply sub_mod_step; assumption.
+                   lia.
              ++ unfold qabs; cbn. rewrite Er; cbn. now rewrite Hit, Hit2.
           -- exfalso. destruct Hp2 as (_ & Heq). unfold cfresh in Hc2_fresh. lia.
   Qed.
@@ -217,47 +200,15 @@ Section FifoProofs.
     intros H. unfold close, queue_ok, qabs in *; cbn. tauto.
   Qed.
 
-  (* The counters never wrap in the model unless 2^64 enqueues happen; the statement actually
-     used by the system-level properties is for the non-wrapped regime. *)
-  Theorem qlen_exact q :
-    queue_ok q ->
-    rcount q + N.of_nat (length (qabs q)) < two64 ->
-    N.of_nat (length (qabs q)) < 9223372036854775808 ->
-    qlen q = Z.of_nat (length (qabs q)).
-  Proof.
-    intros (Hw & Hr & Hf & Hs & Hm & Hrc & Hc) Hnw Hlen.
-    unfold qlen. set (n := N.of_nat (length (qabs q))) in *.
-    rewrite N.mod_small in Hc by assumption.
-    destruct (wcount q <? rcount q) eqn:E; [lia|].
-    replace (wcount q - rcount q) with n by lia.
-    unfold u64_to_int. rewrite N.mod_small by (unfold two64; lia).
-    destruct (n <? 9223372036854775808) eqn:E2; [|lia].
-    subst n. lia.
-  Qed.
+  (* Len is exact in every state satisfying the invariant (hence never negative) *)
+  Theorem qlen_exact q : queue_ok q -> qlen q = Z.of_nat (length (qabs q)).
+  Proof. intros (_ & _ & _ & _ & _ & _ & Hc). exact Hc. Qed.
 
-  (* In the wrapped regime (more than 2^64 enqueues in total) the code's formula
-     MaxUint64 - r + w is one less than the true length: recorded, not relied upon. *)
-  Theorem qlen_wrapped_off_by_one q :
-    queue_ok q ->
-    two64 <= rcount q + N.of_nat (length (qabs q)) ->
-    N.of_nat (length (qabs q)) < 9223372036854775808 ->
-    (0 < length (qabs q))%nat ->
-    qlen q = (Z.of_nat (length (qabs q)) - 1)%Z.
-  Proof.
-    intros (Hw & Hr & Hf & Hs & Hm & Hrc & Hc) Hwr Hlen Hpos.
-    unfold qlen. set (n := N.of_nat (length (qabs q))) in *.
-    assert (Ht : two64 = 18446744073709551616) by reflexivity.
-    assert (Hw' : wcount q = rcount q + n - two64).
-    { rewrite Hc. assert (rcount q + n - two64 < two64) by lia.
-      replace (rcount q + n) with ((rcount q + n - two64) + 1 * two64) at 1 by lia.
-      rewrite N.mod_add by lia. rewrite N.mod_small by assumption. reflexivity. }
-    assert (E : (wcount q <? rcount q) = true) by lia. rewrite E.
-    unfold max_u64, u64_to_int.
-    replace (18446744073709551615 - rcount q + wcount q) with (n - 1) by lia.
-    rewrite N.mod_small by lia.
-    destruct (n - 1 <? 9223372036854775808) eqn:E2; [|lia].
-    subst n. lia.
-  Qed.
+  Theorem purge_values_spec q init :
+    queue_ok q -> 0 < init ->
+    fst (purge_values q init) = qabs q /\ queue_ok (snd (purge_values q init)) /\
+    qabs (snd (purge_values q init)) = [].
+  Proof. intros Hq Hi. unfold purge_values; cbn. destruct (purge_spec q init Hq Hi) as (H1 & H2 & _). auto. Qed.
 
   (* ---------------- every reachable queue ---------------- *)
 
